@@ -324,6 +324,22 @@ l
     return M
 
 
+# Utility function to split a stacked flag vector into per-output flags
+def _flag_from_vector(zvec, flag):
+    """Split a stacked vector of flag entries into a list of arrays
+
+    The entries of `zvec` are stacked as in `_basis_flag_matrix`; the
+    lengths of the individual flags (which can differ between the flat
+    outputs) are taken from `flag`.
+
+    """
+    flaglen = [len(f) for f in flag]
+    if len(set(flaglen)) == 1:
+        # All flags have the same length: 2D array, as before
+        return zvec.reshape(len(flaglen), -1)
+    return np.split(zvec, np.cumsum(flaglen)[:-1])
+
+
 # Solve a point to point trajectory generation problem for a flat system
 def point_to_point(
         sys, timepts, initial_state=0, initial_input=0, final_state=0,
@@ -550,7 +566,7 @@ def point_to_point(
                 M_t = Mt_list[i]
 
                 # Compute flag at this time point
-                zflag = (M_t @ coeffs).reshape(sys.ninputs, -1)
+                zflag = _flag_from_vector(M_t @ coeffs, zflag_T0)
 
                 # Find states and inputs at the time points
                 x, u = sys.reverse(zflag, params)
@@ -588,7 +604,7 @@ def point_to_point(
                     M_t = Mt_list[i]
 
                     # Compute flag at this time point
-                    zflag = (M_t @ coeffs).reshape(sys.ninputs, -1)
+                    zflag = _flag_from_vector(M_t @ coeffs, zflag_T0)
 
                     # Find states and inputs at the time points
                     states, inputs = sys.reverse(zflag, params)
@@ -873,7 +889,7 @@ def solve_flat_optimal(
                 M_t = Mt_list[i]
 
                 # Compute flag at this time point
-                zflag = (M_t @ coeffs).reshape(sys.ninputs, -1)
+                zflag = _flag_from_vector(M_t @ coeffs, zflag_T0)
 
                 # Find states and inputs at the time points
                 x, u = sys.reverse(zflag, params)
@@ -885,7 +901,7 @@ def solve_flat_optimal(
         # Evaluate the terminal_cost
         if terminal_cost is not None:
             M_t = Mt_list[-1]
-            zflag = (M_t @ coeffs).reshape(sys.ninputs, -1)
+            zflag = _flag_from_vector(M_t @ coeffs, zflag_T0)
             x, u = sys.reverse(zflag, params)
             costval += terminal_cost(x, u)
 
@@ -916,7 +932,7 @@ def solve_flat_optimal(
                 M_t = Mt_list[i]
 
                 # Compute flag at this time point
-                zflag = (M_t @ coeffs).reshape(sys.ninputs, -1)
+                zflag = _flag_from_vector(M_t @ coeffs, zflag_T0)
 
                 # Find states and inputs at the time points
                 states, inputs = sys.reverse(zflag, params)
